@@ -6,7 +6,7 @@
 //! trusted: HeaderCache::look_up returns a well-formed header of the requested hash (cache invariant, assumed); the Poll implementation is instantiated (R5) by a stub Poller whose look_up_previous_header returns a header that passed check_builds_on against `header` (that is what ChainPoller does)
 //! trusted: listener part: ChainNotifier is instantiated (R5) as Notifier { header_cache, chain_listener: &mut Listener } (the real field is a shared reference to a listener with interior state); the Listener stub carries the ghost field `tip` and the trace preconditions; HeaderCache::{blocks_disconnected, block_connected} external_body (no effect on the listener); Poller::fetch_block returns a block whose hash is the requested header's (ChainPoller validates it); `drain(..).rev()` rewritten into pop() (R6); find_difference_from_header restated as an external_body callee contract in the Notifier impl (it is verified, same text, in the ChainNotifier impl above)
 //! trusted: poller part: `fn f(..) -> impl Future<Output = T> + Send + 'a { async move { B } }` is written `async fn f(..) -> T { B }` (R5, same body); ChainPoller<B, T> is instantiated with a stub block source whose get_best_block / get_header return anything (any source); Header::validate_pow / block_hash are external_body returning the uninterpreted hash_of(header); `.map_err(BlockSourceError::persistent)` gets an explicit closure (R8); Validate::T is spelled out
-//! trusted: R15 (deep slices): init::synchronize_listeners: the test that decides whether a fetched block is handed to a listener, the batch size / truncation pair of the fetch loop (with the function-local const MAX_BLOCKS_AT_ONCE of the production configuration), and the test that keeps the longest list of blocks to connect, verbatim as functions; fetching (futures), the header cache and the per-listener disconnection (ChainNotifier, above) are dropped and not claimed here
+//! trusted: R15 (deep slices): init::synchronize_listeners: the test that decides whether a fetched block is handed to a listener and the match that hands it over (listener = stub that records what it is told; `&L` written `&mut` as for ChainNotifier; ValidatedBlock = Box<BlockData> skeleton), the batch size / truncation pair of the fetch loop (with the function-local const MAX_BLOCKS_AT_ONCE of the production configuration), and the test that keeps the longest list of blocks to connect, verbatim as functions; fetching (futures), the header cache and the per-listener disconnection (ChainNotifier, above) are dropped and not claimed here
 //! assume: block sources never report the height u32::MAX (check_builds_on computes previous_header.height + 1 in u32)
 //! assume: the served block tree is consistent: one parent and one height per block hash (parent_of/height_of uninterpreted)
 //! assume: termination of the walk is not claimed (needs a genesis assumption): partial correctness only
@@ -482,6 +482,34 @@ pub struct Hdr { pub height: u32 }
     if *height > *listener_height {
 //@with
     if *height >= *listener_height {
+//@end
+// what a listener is told at start-up: the fetched block (whole, or its header with no transactions) at the block's own height
+pub struct Block { pub id: u64 }
+pub struct HeaderData { pub id: u64 }
+pub struct Tx { pub id: u64 }
+pub enum BlockData { FullBlock(Block), HeaderOnly(HeaderData) }
+pub enum Told { Whole { block: u64, height: u32 }, Filtered { header: u64, ntx: nat, height: u32 } }
+pub struct StartUpListener { pub log: Ghost<Seq<Told>> }
+impl StartUpListener {
+    #[verifier::external_body] pub fn block_connected(&mut self, block: &Block, height: u32)
+        ensures final(self).log@ == old(self).log@.push(Told::Whole { block: block.id, height }) { unimplemented!() }
+    #[verifier::external_body] pub fn filtered_block_connected(&mut self, header: &HeaderData, txdata: &[Tx], height: u32)
+        ensures final(self).log@ == old(self).log@.push(Told::Filtered { header: header.id, ntx: txdata@.len(), height }) { unimplemented!() }
+}
+//@extract lightning-block-sync/src/init.rs :: fn synchronize_listeners
+//@slice R15
+    for (height, block_data) in fetched_blocks.iter().flatten() { if $c:cond { match &**block_data { $arms:any } } }
+//@with
+    fn tell_listener_of_block(listener: &mut StartUpListener, listener_height: &u32, height: &u32, block_data: &Box<BlockData>) { if $c { match &**block_data { $arms } } }
+//@ensures P C20 at-start-up-a-listener-is-told-of-each-fetched-block-above-its-fork-point-at-that-blocks-own-height
+    *height > *listener_height ==> final(listener).log@ == old(listener).log@.push(match **block_data {
+        BlockData::FullBlock(b) => Told::Whole { block: b.id, height: *height },
+        BlockData::HeaderOnly(h) => Told::Filtered { header: h.id, ntx: 0, height: *height } }),
+    *height <= *listener_height ==> final(listener).log@ == old(listener).log@,
+//@mutant header_only_block_announced_at_the_listeners_height
+    listener.filtered_block_connected(&header_data, &[], *height);
+//@with
+    listener.filtered_block_connected(&header_data, &[], *listener_height);
 //@end
 //@extract lightning-block-sync/src/init.rs :: fn synchronize_listeners
 //@capture R15
